@@ -92,7 +92,10 @@ def seenAfter (s : Seen) (v : OpView) : Seen :=
   match v.op.name, (v.op.args.getD 0 "").toNat? with
   | "addobs", some i => { s with observers := s.observers ++ [i] }
   | "rmobs", some i => { s with observers := s.observers.filter (· != i) }
-  | _, _ => s
+  | _, _ =>
+    -- re-entrant removals that fired during this call
+    let gone := v.impl.filterMap fun t => match t.splitOn ":" with | ["orm", _, j] => j.toNat? | _ => none
+    { s with observers := s.observers.filter fun o => !gone.contains o }
 
 /-- text arguments of an operation (caller-supplied strings that go into command lines) -/
 def textArgs (op : SOp) : List Bytes :=
@@ -420,6 +423,18 @@ def monitorOp (prop : String) (seen : Seen) (v : OpView) (next : Option OpView) 
     else if returned && ((retReplies ret).getD []).any (fun r => r.startsWith "421:") && conn then some "connected-after-421"
     else none
   | "C14" =>
+    -- "an observer that has been removed receives nothing further" - also when it is removed from inside a callback
+    let removedTold : Bool := Id.run do
+      let mut gone : List Nat := []
+      let mut bad := false
+      for t in impl do
+        match t.splitOn ":" with
+        | ["orm", _, j] => gone := gone ++ [(j.toNat?).getD 99]
+        | _ => if tokClass t = "o" && gone.any (fun j => t.startsWith s!"o{j}:") then bad := true
+      return bad
+    if removedTold then some "removed-observer-was-still-notified"
+    else if impl.any (·.startsWith "orm:") then none       -- the expectation changes in mid-call: left to the correspondence
+    else
     -- the observers' events, in wire order, are exactly the transcript
     let obs := seen.observers
     let expected : List String := Id.run do
